@@ -74,8 +74,9 @@ SPEC = dict(
                "value and accepted by a reference server; PLAIN = RFC 4616 (other password rejected), HT = XEP-0484; "
                "parseMessage(serializeMessage m) = m for every QMap with token keys; FULL success_only_after_server_proof for every "
                "server script and both managers (repaired tree: commits 0b21ae7, 43097ab, aca51c7; the old witnesses stay in the corpus). "
-               "Defect theorems with witnesses (recorded findings): DIGEST-MD5 success without rspauth (both managers), Latin-1 "
-               "credentials hashed as UTF-8, reserved m= ignored, unquoted DIGEST-MD5 directives. "
+               "digest_success_only_after_rspauth (every script, both managers) and scram_rejects_reserved_m (repaired tree: 8012ab0, ff6a7ed). "
+               "Defect theorems with witnesses (recorded findings, fixes not applied): Latin-1 credentials hashed as UTF-8, unquoted "
+               "DIGEST-MD5 directives. "
                "Model tied to the real clients and managers by byte-exact correspondence.",
     level_note="Proved about the hand-written model; model-to-code tie is differential (exhaustive to the stated depth, sampled beyond). "
                "The 'no server with a different secret accepts' half is an exact algebraic condition plus a named cryptographic "
